@@ -34,7 +34,7 @@ type query struct {
 	Inner      *query    `json:"inner,omitempty"` // derived / cte: the source query; union: the parenthesised operand
 	Other      *query    `json:"other,omitempty"` // union: the other operand
 	InnerRight bool      `json:"inner_right,omitempty"`
-	SetOp      string    `json:"set_op,omitempty"` // union: "" = UNION ALL | union | intersect | except (distinct results)
+	SetOp      string    `json:"set_op,omitempty"`      // union: "" = UNION ALL | union | intersect | except (distinct results)
 	OtherPlain bool      `json:"other_plain,omitempty"` // the other operand is written without parentheses (it has no ORDER BY / limit clause)
 	AsWord     bool      `json:"as_word,omitempty"`
 	Cols       []int     `json:"cols,omitempty"` // select list order: 0 = id, j = k<j>
